@@ -470,6 +470,7 @@ func RegisterGlobal(name string, p any) { Globals = append(Globals, Global{name,
 func Y(site int32) {
 	if h := Hook; h != nil {
 		if live.Load() != 0 && inChild() {
+			ChildTicks.Add(1)
 			return // a goroutine the library started itself: not a party of the simulation
 		}
 		h(site)
@@ -481,6 +482,9 @@ func Y(site int32) {
 var (
 	live     atomic.Int32
 	children sync.Map // goroutine id -> struct{}
+	// ChildTicks counts the yield sites passed by goroutines the library started: the party
+	// that waits for them is not stuck while this moves
+	ChildTicks atomic.Uint64
 )
 
 func goid() uint64 {
